@@ -76,6 +76,21 @@ def gen_cases(rng, tier, scale):
                     cases.append({'line': f'c{k2} ' + ' ; '.join(ops + seq), 'kind': 'entries', 'tpl': t, 'nsetup': 3, 'main_idx': main_idx,
                                   'pi': bool(pi), 'tags': ['config']})
                     k2 += 1
+    # dev mode: a partial registered from a file that changed afterwards is seen alike by every entry point (named,
+    # ad-hoc, to_write, through another partial, from a clone)
+    kd = 0
+    for body_old, body_new in (('<{{v}}>', '[{{v}}]'), ('A\n', 'B\n{{#each l}}{{this}}{{/each}}'), ('x', '')):
+        for via in ('{{> fp}};', '{{#if v}}{{> mid}}{{/if}}|', '{{#each l}}{{> fp}}{{/each}}'):
+            Dj = jtok(D2)
+            ops = ['dev 1', f'fw {x("f1")} {x(body_old)}', f'regf {x("fp")} {x("f1")}', f'regs {x("mid")} {x("({{> fp}})")}',
+                   f'regs {x("main")} {x(via)}', f'regs {x("other")} {x("o")}', f'fw {x("f1")} {x(body_new)}']
+            seq = [f'r {e} {x("main")} {Dj} -1' for e in (0, 1, 2, 3)] + [f'rt {e} {x(via)} {Dj} -1' for e in (4, 5, 6, 7)]
+            seq += ['clone', 'sel 1', f'r 0 {x("main")} {Dj} -1', f'rt 4 {x(via)} {Dj} -1', 'sel 0']
+            obs_ops = [o for o in ops + seq if o.split(' ')[0] in ('regs', 'regf', 'r', 'rt')]
+            main_idx = [i for i, o in enumerate(obs_ops) if o.startswith('r ') or o.startswith('rt ')]
+            cases.append({'line': f'dv{kd} ' + ' ; '.join(ops + seq), 'kind': 'entries', 'tpl': via, 'nsetup': 4, 'main_idx': main_idx,
+                          'pi': False, 'tags': ['dev-file-partial']})
+            kd += 1
     # history independence: render_template* under configuration B gives the same bytes whether the registry (or a
     # clone of it) rendered the same template string under configuration A before or not
     k3 = 0
